@@ -1970,13 +1970,14 @@ def mnemo_from_att(prefix, name, args, asm_format):
         'suffix_one_iflt',
         'suffix_one_ptr',
         ]:
-        if name.startswith('test') or name.startswith('xchg'):
+        if (name.startswith('test') or name.startswith('xchg')) \
+                and len(args) == 2:
             # Be liberal in what we accept, because old clang has bugs
             if args[1][x86_afs.ad] != False: args.reverse()
         if name[:-1] in att_mnemo_table[table]:
             size = att_mnemo_table[table][0][name[-1]]
             mnemo_from_att_set_size(size, args)
-            if name[:-1] == 'push' and is_imm(args[0]) and size == x86_afs.u16:
+            if name[:-1] == 'push' and len(args) == 1 and is_imm(args[0]) and size == x86_afs.u16:
                 args[0][x86_afs.size] = size
             return prefix, name[:-1]
     if name[-2:] == 'll' and name[:-2] in att_mnemo_table['suffix_one_iflt']:
@@ -2827,11 +2828,13 @@ class x86_mn(x86_mn_base):
             args = []
         from miasmx.core.parse_ad import parse_ad
         args = [ parse_ad(a) for a in args ]
-        if name == 'push' and args[0][x86_afs.size] == x86_afs.u16 \
+        if name == 'push' and len(args) == 1 \
+                and args[0][x86_afs.size] == x86_afs.u16 \
                 and not [k for k in args[0] if type(k) == int]:
             # 'push WORD PTR 4' is a 16-bit immediate, not a memory operand
             args[0][x86_afs.ad] = False
-        if name.startswith('test') or name.startswith('xchg'):
+        if (name.startswith('test') or name.startswith('xchg')) \
+                and len(args) == 2:
             # Be liberal in what we accept, because old clang has bugs
             if args[1][x86_afs.ad] != False: args.reverse()
         if name == 'fwait': name = 'wait'
@@ -2901,15 +2904,15 @@ class x86_mn(x86_mn_base):
                 and args[1][x86_afs.size] != x86_afs.xmm:
             args[0:2] = []
         # "lea" has a specific syntax
-        if name == "lea":
+        if name == "lea" and len(args) == 2:
             args[1][x86_afs.size] = True
             args[1][x86_afs.ad] = x86_afs.u32
         # "prefetch" have a specific syntax
-        if name in mnemo_prefetch:
+        if name in mnemo_prefetch and len(args) == 1:
             args[0][x86_afs.size] = True
             args[0][x86_afs.ad] = x86_afs.u32
         # special case when third argument is a byte
-        if name in ['shufps', 'pextrw', 'pinsrw']:
+        if name in ['shufps', 'pextrw', 'pinsrw'] and len(args) == 3:
             args[2][x86_afs.size] = x86_afs.u08
         if name in mnemo_sse_cmp:
             predicate = mnemo_sse_cmp_predicate.index(name[3:-2])
@@ -2944,7 +2947,7 @@ class x86_mn(x86_mn_base):
             name = x_0f_ae[name]
         if name == 'movhlps': name = 'movlps'
         if name == 'movlhps': name = 'movhps'
-        if name == 'movq':
+        if name == 'movq' and len(args_eval) == 2:
             # Special case
             # 0f d6 'movq'
             # 0f 7e 'mov#d#'
@@ -3111,7 +3114,7 @@ class x86_mn(x86_mn_base):
                     dib_out.append(r)
 
                 elif dib in [im1, im3]:
-                    if x86_afs.imm in args_sample[-1] and args_sample[-1][x86_afs.imm] =={im1:1,im3:3}[dib]:
+                    if args_sample and x86_afs.imm in args_sample[-1] and args_sample[-1][x86_afs.imm] =={im1:1,im3:3}[dib]:
                         dib_out.append(args_sample.pop())
                     else:
                         log.debug("not im val fixed")
@@ -3177,6 +3180,9 @@ class x86_mn(x86_mn_base):
 
                 elif dib in [r_cl, r_dx]:
                     index_im = [-1, 0][dib == r_dx]
+                    if not args_sample:
+                        good_c = False
+                        break
                     dib_tmp = dict(dib)
                     del(dib_tmp[x86_afs.size])
                     del(args_sample[index_im][x86_afs.size])
